@@ -8,8 +8,9 @@ import (
 
 var stderrFile *os.File
 
-// CaptureStderr runs f with file descriptor 2 pointing at a scratch file of this process and returns what was written
-// to it. fox's built-in log handler writes to the process' standard error and cannot be given another writer, so this
+// CaptureStderr runs f with file descriptors 1 and 2 pointing at a scratch file of this process and returns what was
+// written to them. fox's built-in log handler writes to the process' standard output (below ERROR) and standard error
+// and cannot be given another writer, so this
 // is the one place where the harness lets real I/O happen: a private, already unlinked file, read back synchronously.
 // Only called outside the scheduler (one goroutine).
 func CaptureStderr(f func()) (out string, err error) {
@@ -27,19 +28,26 @@ func CaptureStderr(f func()) (out string, err error) {
 	if _, err = stderrFile.Seek(0, 0); err != nil {
 		return "", err
 	}
-	saved, err := syscall.Dup(2)
-	if err != nil {
-		return "", err
+	var saved [3]int
+	for _, fd := range []int{1, 2} {
+		if saved[fd], err = syscall.Dup(fd); err != nil {
+			return "", err
+		}
 	}
-	if err = syscall.Dup3(int(stderrFile.Fd()), 2, 0); err != nil {
-		syscall.Close(saved)
-		return "", err
+	restore := func() {
+		for _, fd := range []int{1, 2} {
+			_ = syscall.Dup3(saved[fd], fd, 0)
+			syscall.Close(saved[fd])
+		}
+	}
+	for _, fd := range []int{1, 2} {
+		if err = syscall.Dup3(int(stderrFile.Fd()), fd, 0); err != nil {
+			restore()
+			return "", err
+		}
 	}
 	func() {
-		defer func() {
-			_ = syscall.Dup3(saved, 2, 0)
-			syscall.Close(saved)
-		}()
+		defer restore()
 		f()
 	}()
 	st, err := stderrFile.Stat()
